@@ -49,7 +49,7 @@ func (db *Database) SearchWithOptions(query string, options SearchOptions) []Sea
 	}
 
 	queryWords := strings.Fields(strings.ToLower(query))
-	results := make([]SearchResult, 0, utils.Min(len(db.Commands), options.Limit*constants.ResultsBufferMultiplier))
+	results := make([]SearchResult, 0, resultsBufferCap(len(db.Commands), options.Limit))
 
 	currentPlatform := getCurrentPlatform()
 
@@ -73,7 +73,7 @@ func (db *Database) SearchWithPipelineOptions(query string, options SearchOption
 	}
 
 	queryWords := strings.Fields(strings.ToLower(query))
-	results := make([]SearchResult, 0, utils.Min(len(db.Commands), options.Limit*constants.ResultsBufferMultiplier))
+	results := make([]SearchResult, 0, resultsBufferCap(len(db.Commands), options.Limit))
 
 	for i := range db.Commands {
 		cmd := &db.Commands[i]
@@ -99,6 +99,15 @@ func (db *Database) SearchWithPipelineOptions(query string, options SearchOption
 	}
 
 	return db.sortAndLimitResults(results, options.Limit)
+}
+
+// resultsBufferCap is min(total, limit*ResultsBufferMultiplier) computed without overflow:
+// a huge limit must not turn the product negative (makeslice would panic).
+func resultsBufferCap(total, limit int) int {
+	if limit <= 0 || limit > total/constants.ResultsBufferMultiplier {
+		return utils.Max(total, 0)
+	}
+	return limit * constants.ResultsBufferMultiplier
 }
 
 // sortAndLimitResults sorts results by score and applies limit
@@ -503,6 +512,9 @@ func (db *Database) SearchWithFuzzy(query string, options SearchOptions) []Searc
 	// First try exact search
 	exactOptions := options
 	exactOptions.Limit = options.Limit * constants.FuzzySearchMultiplier
+	if exactOptions.Limit < options.Limit { // overflow: the limit is already beyond any database size
+		exactOptions.Limit = options.Limit
+	}
 	exactOptions.UseFuzzy = false
 	exactResults := db.SearchWithOptions(query, exactOptions)
 
@@ -700,9 +712,17 @@ func (db *Database) SearchWithNLP(query string, options SearchOptions) []SearchR
 		return db.SearchWithFuzzy(query, options)
 	}
 
+	if options.Limit <= 0 {
+		options.Limit = constants.DefaultSearchLimit
+	}
+	candidateLimit := options.Limit * 2 // Get more results for better selection
+	if candidateLimit < options.Limit { // overflow
+		candidateLimit = options.Limit
+	}
+
 	// Use shared TF-IDF searcher if available
 	if db.tfidf != nil && db.cmdIndex != nil {
-		tfidfResults := db.tfidf.Search(query, options.Limit*2) // Get more results for better selection
+		tfidfResults := db.tfidf.Search(query, candidateLimit)
 
 		// Convert TF-IDF results to database SearchResult format
 		var results []SearchResult
@@ -734,7 +754,7 @@ func (db *Database) SearchWithNLP(query string, options SearchOptions) []SearchR
 	}
 
 	tfidfSearcher := nlp.NewTFIDFSearcher(nlpCommands)
-	tfidfResults := tfidfSearcher.Search(query, options.Limit*2)
+	tfidfResults := tfidfSearcher.Search(query, candidateLimit)
 
 	// Convert TF-IDF results to database SearchResult format
 	var results []SearchResult
